@@ -4,37 +4,41 @@
 //! harness-controlled list (`feed`), so that ktio's own numbering / copy-out /
 //! statistics code can be executed; no FASTA/FASTQ parsing is modelled.
 pub mod io {
-    #[derive(Clone, Debug, Default)]
-    pub struct RawRecord {
-        pub id: String,
-        pub seq: Vec<u8>,
-    }
+    pub const MAX_RECS: usize = 4;
+    pub const MAX_SEQ: usize = 8;
 
-    // single-threaded by construction (Kani harnesses have one thread)
-    static mut FEED: Option<Vec<RawRecord>> = None;
+    // Harness-controlled record list in FIXED static arrays (heap-backed lists made
+    // CBMC's symbolic execution crawl).  Single-threaded by construction.
+    static mut FEED_N: usize = 0;
+    static mut FEED_IDS: [[u8; 2]; MAX_RECS] = [[0; 2]; MAX_RECS];
+    static mut FEED_SEQS: [[u8; MAX_SEQ]; MAX_RECS] = [[0; MAX_SEQ]; MAX_RECS];
+    static mut FEED_LENS: [usize; MAX_RECS] = [0; MAX_RECS];
 
     /// Harness side: the records every subsequently created reader will yield.
-    #[allow(static_mut_refs)]
-    pub fn feed(recs: Vec<RawRecord>) {
+    pub fn feed(n: usize, ids: &[[u8; 2]], seqs: &[[u8; MAX_SEQ]], lens: &[usize]) {
+        assert!(n <= MAX_RECS && ids.len() >= n && seqs.len() >= n && lens.len() >= n);
         unsafe {
-            FEED = Some(recs);
+            FEED_N = n;
+            let mut i = 0;
+            while i < MAX_RECS {
+                if i < n {
+                    FEED_IDS[i] = ids[i];
+                    FEED_SEQS[i] = seqs[i];
+                    assert!(lens[i] <= MAX_SEQ);
+                    FEED_LENS[i] = lens[i];
+                }
+                i += 1;
+            }
         }
     }
 
-    #[allow(static_mut_refs)]
-    fn snapshot() -> Vec<RawRecord> {
-        unsafe {
-            match &FEED {
-                Some(v) => v.clone(),
-                None => Vec::new(),
-            }
-        }
+    fn feed_len() -> usize {
+        unsafe { FEED_N }
     }
 
     macro_rules! reader_mod {
         ($name:ident) => {
             pub mod $name {
-                use super::RawRecord;
                 use std::io::{self, BufRead, BufReader, Read};
                 use std::marker::PhantomData;
 
@@ -48,32 +52,32 @@ pub mod io {
                 }
                 impl<B: BufRead> Reader<B> {
                     pub fn records(self) -> Records<B> {
-                        Records { recs: super::snapshot(), i: 0, _r: PhantomData }
+                        Records { i: 0, _r: PhantomData }
                     }
                 }
                 pub struct Records<B> {
-                    recs: Vec<RawRecord>,
                     i: usize,
                     _r: PhantomData<B>,
                 }
                 pub struct Record {
-                    raw: RawRecord,
+                    idx: usize,
                 }
+                #[allow(static_mut_refs)]
                 impl Record {
                     pub fn id(&self) -> &str {
-                        &self.raw.id
+                        unsafe { std::str::from_utf8_unchecked(&super::FEED_IDS[self.idx]) }
                     }
                     pub fn seq(&self) -> &[u8] {
-                        &self.raw.seq
+                        unsafe { &super::FEED_SEQS[self.idx][..super::FEED_LENS[self.idx]] }
                     }
                 }
                 impl<B: BufRead> Iterator for Records<B> {
                     type Item = io::Result<Record>;
                     fn next(&mut self) -> Option<Self::Item> {
-                        if self.i < self.recs.len() {
-                            let r = self.recs[self.i].clone();
+                        if self.i < super::feed_len() {
+                            let r = Record { idx: self.i };
                             self.i += 1;
-                            Some(Ok(Record { raw: r }))
+                            Some(Ok(r))
                         } else {
                             None
                         }
